@@ -1355,3 +1355,37 @@ def iter_elem(ip, st, it, i):
     if len(r) != 1:
         raise Undecided("iterator element needs a case split")
     return r[0][1]
+
+
+@prim("Iterator::by_ref")
+def iter_by_ref(ip, st, ci):
+    v = ci["args"][0]
+    if v[0] == "ref":
+        pv = ip.load(st, v[1])
+        if pv[0] == "iter":
+            return v      # `&mut I` is itself an iterator over the same elements
+    raise Undecided("by_ref of %s" % v[0])
+
+
+@prim("Iterator::fold")
+def iter_fold(ip, st, ci):
+    """fold(init, f): a loop whose carried state is the accumulator."""
+    from .loops import summarise_call_loop
+    it = _as_iter(ip, st, ci, ci["args"][0], ci["argops"][0])
+    init, clo = ci["args"][1], ci["args"][2]
+    N = iter_count(ip, st, it)
+    cell = ("tmp", "fold%d" % len(st.heap))
+    st.heap[cell] = init
+
+    def runner(s, idx):
+        out = []
+        for s2, e in iter_elem_multi(ip, s, it, idx):
+            acc = s2.heap[cell]
+            if clo[0] != "closure":
+                raise Undecided("fold with %s callback" % clo[0])
+            for s3, r in _call_closure(ip, s2, ci, clo, [acc, e]):
+                ip.store(s3, Target(cell), r)
+                out.append(s3)
+        return out
+    states = summarise_call_loop(ip, st, ci["fr"], N, runner)
+    return [(s, s.heap[cell]) for s in states]
